@@ -189,7 +189,13 @@ class AtomicWrite(Protocol):
 class RealAtomicWrite(AtomicWrite):
     def atomic_write(self, path, content):
         file_handle = self.open_for_write_in_exclusive_and_create_mode(path)
-        os.write(file_handle, content)
+        try:
+            os.write(file_handle, content)
+        except (IOError, OSError):
+            # do not leave behind the empty file just created
+            os.close(file_handle)
+            os.remove(path)
+            raise
         os.close(file_handle)
 
     def open_for_write_in_exclusive_and_create_mode(self, path):
